@@ -10,6 +10,7 @@ import HpxVerif.Gen.Consts
 import HpxVerif.Model.Hash
 import HpxVerif.Model.Bilinear
 import HpxVerif.Model.C2V
+import HpxVerif.Model.Once
 
 namespace Hpx.Driver
 
@@ -156,8 +157,33 @@ def optListF : Option (List (Float × Float)) → String
   | some l => if l.isEmpty then "-" else " ".intercalate (l.map fun p => s!"{fb p.1} {fb p.2}")
   | none => "panic"
 
+def onceOp (n : Nat) (sched : List Nat) : String :=
+  let code : Once.PC → String
+    | .start => "S" | .entered => "E" | .written => "W" | .after => "A" | .done true => "D" | .done false => "U"
+  let rec go (s : Once.St) (l : List Nat) (acc : String) : Once.St × String :=
+    match l with
+    | [] => (s, acc)
+    | t :: ts =>
+      if t ≥ n then go s ts acc else
+      match Once.step s t with
+      | none => go s ts (acc ++ "x ")
+      | some s' => go s' ts (acc ++ s!"{code (s'.pc t)}:{s'.cons} ")
+  let (s1, obs) := go Once.init sched ""
+  -- drain: let every thread finish
+  let rec drain (fuel : Nat) (s : Once.St) : Once.St :=
+    match fuel with
+    | 0 => s
+    | fuel + 1 =>
+      match (List.range n).find? (fun t => (Once.step s t).isSome) with
+      | none => s
+      | some t => match Once.step s t with | some s' => drain fuel s' | none => s
+  let s2 := drain (6 * n + 6) s1
+  let allDone := (List.range n).all fun t => s2.pc t == Once.PC.done true
+  obs ++ s!"| final cons={s2.cons} all-returned-same-object={if allDone then 1 else 0}"
+
 def stepRest (st : St) (toks : List String) : St × String :=
   match toks with
+  | "once" :: n :: sched => (st, onceOp (nat! n) (sched.map nat!))
   | ["c2v", d, lon, lat] => (st, match C2V.largestC2V st.debug (nat! d) (fl lon) (fl lat) with | some v => fb v | none => "panic")
   | ["c2vr", d, lon, lat, r] => (st, match C2V.largestC2VWithRadius st.debug (nat! d) (fl lon) (fl lat) (fl r) with | some v => fb v | none => "panic")
   | ["c2vs", f, t, lon, lat, r] =>
